@@ -75,7 +75,9 @@ def configure(boundscheck=False, disable_jit=False, repo=None):
     return th, cdir
 
 
-def prune_caches(keep=3):
+def prune_caches(keep=6, min_age_s=3 * 3600):
+    """Remove old numba caches: only those beyond the `keep` newest AND untouched for `min_age_s`
+    (concurrent runs against scratch copies have their own, younger, caches)."""
     root = os.path.join(CACHE_ROOT, "numba")
     if not os.path.isdir(root):
         return
@@ -88,8 +90,9 @@ def prune_caches(keep=3):
             pass
     ents.sort(reverse=True)
     cur = os.environ.get("NUMBA_CACHE_DIR")
-    for _, p in ents[keep:]:
-        if p != cur:
+    now_ = time.time()
+    for mt, p in ents[keep:]:
+        if p != cur and now_ - mt > min_age_s:
             shutil.rmtree(p, ignore_errors=True)
 
 
